@@ -391,24 +391,27 @@ class InterTagsFromGitToNonGit(InterTags):
         unpeeled_map = defaultdict(set)
         conflicts = []
         updates = {}
-        result = dict(to_tags.get_tag_dict())
-        for _ref_name, tag_name, peeled, unpeeled in source_tag_refs:
-            if selector and not selector(tag_name):
-                continue
-            if unpeeled is not None:
-                unpeeled_map[peeled].add(unpeeled)
-            try:
-                bzr_revid = self.source.branch.lookup_foreign_revision_id(peeled)
-            except NotCommitError:
-                continue
-            if result.get(tag_name) == bzr_revid:
-                pass
-            elif tag_name not in result or overwrite:
-                result[tag_name] = bzr_revid
-                updates[tag_name] = bzr_revid
-            else:
-                conflicts.append((tag_name, bzr_revid, result[tag_name]))
-        to_tags._set_tag_dict(result)
+        # Hold the write lock across the read-modify-write of the tag dict,
+        # so that a tag added by another writer meanwhile is not lost.
+        with to_tags.branch.lock_write():
+            result = dict(to_tags.get_tag_dict())
+            for _ref_name, tag_name, peeled, unpeeled in source_tag_refs:
+                if selector and not selector(tag_name):
+                    continue
+                if unpeeled is not None:
+                    unpeeled_map[peeled].add(unpeeled)
+                try:
+                    bzr_revid = self.source.branch.lookup_foreign_revision_id(peeled)
+                except NotCommitError:
+                    continue
+                if result.get(tag_name) == bzr_revid:
+                    pass
+                elif tag_name not in result or overwrite:
+                    result[tag_name] = bzr_revid
+                    updates[tag_name] = bzr_revid
+                else:
+                    conflicts.append((tag_name, bzr_revid, result[tag_name]))
+            to_tags._set_tag_dict(result)
         if len(unpeeled_map) > 0:
             map_file = UnpeelMap.from_repository(to_tags.branch.repository)
             map_file.update(unpeeled_map)
